@@ -44,6 +44,47 @@ fn digests(restricted: bool, kmax: usize) -> BTreeMap<String, String> {
             Outcome::default()
         });
     }
+    // import, then re-issue under another key: the same foreign CA certificates (reference-built, so byte-identical
+    // inputs in every build) must come out of every build as the same parameters and the same re-issued TBS. The
+    // subject key identifiers are what the builds could treat differently: digests of the key by several methods,
+    // a SHA-1 style one, arbitrary ones of several lengths, none.
+    {
+        use refmodel::gen::RefExt;
+        let zoo = load_zoo();
+        let z = zoo.iter().find(|z| z.kind == KeyKind::Ed25519).unwrap();
+        // (a CA without any subject key identifier needs a hash method after import, which the crypto-less build does
+        // not have: that input is compared between the two crypto builds only)
+        let mut skis: Vec<(String, Option<Vec<u8>>)> = if restricted { vec![] } else { vec![("no SKI".into(), None)] };
+        for bits in [256u32, 384, 512] {
+            let d = ossl_sha(bits, &z.spki);
+            skis.push((format!("sha{} of the SPKI, 20 bytes", bits), Some(d[..20].to_vec())));
+            skis.push((format!("sha{} of the SPKI, whole", bits), Some(d.clone())));
+            skis.push((format!("sha{} of the key bits, 20 bytes", bits), Some(ossl_sha(bits, &z.raw_pub)[..20].to_vec())));
+        }
+        skis.push(("sha1 of the key bits".into(), Some(openssl::hash::hash(openssl::hash::MessageDigest::sha1(), &z.raw_pub).unwrap().to_vec())));
+        for n in [0usize, 1, 19, 20, 21, 32] {
+            skis.push((format!("{} arbitrary bytes", n), Some((0..n as u8).map(|i| 0xc0 ^ i).collect())));
+        }
+        let raw = fake_pub(Alg::EcP256, 0x44);
+        let (other_key, _l) = stub_key(Alg::EcP256, &raw);
+        for (l, ski) in skis {
+            let exts: Vec<RefExt> = ski.iter().map(|k| RefExt::new(refmodel::x509::OID_SKI, false, refmodel::gen::ext_ski(k))).collect();
+            let der = crate::corpus::foreign_ca_with_exts(&exts, &z.spki);
+            let v = match guarded(|| rcgen::CertificateParams::from_ca_cert_der(&der.clone().into())) {
+                Err(p) => format!("PANIC {}", p.split(" at ").next().unwrap_or("")),
+                Ok(Err(e)) => format!("ERR {:?}", e),
+                Ok(Ok(p)) => {
+                    let method = format!("{:?}", p.key_identifier_method);
+                    match guarded(|| p.self_signed(&other_key)) {
+                        Ok(Ok(c)) => format!("{} -> {:016x}", method, fnv(&refmodel::x509::decode_cert(c.der()).value.map(|a| a.tbs_raw).unwrap_or_default())),
+                        Ok(Err(e)) => format!("{} -> ERR {:?}", method, e),
+                        Err(p) => format!("{} -> PANIC {}", method, p.split(" at ").next().unwrap_or("")),
+                    }
+                }
+            };
+            map.lock().unwrap().insert(format!("import+reissue | {}", l), v);
+        }
+    }
     // CSRs and CRLs
     let cs = super::c07::csr_space(false);
     let raw = fake_pub(Alg::EcP256, 3);
